@@ -32,6 +32,12 @@ HOW = {'eval': 'replay driver `eval` (FileBuilder::eval_string; payload = all to
 KNOWN = [
 ]
 KNOWN_BUILD = 'typed_shadow'
+# `ucg build` only (the type checker; eval_string is right and yields the reference value): a call whose callee is a field of a tuple or of a
+# module instance -- `let t = {f = func (v) => v + 1}; let a = t.f(2);`, `let i = m{}; let a = i.f(2);` -- is refused with "Type error:
+# Invalid field selector" (the same call inside a map callback passes, inside a named function it is refused too).  Valid programs are
+# refused; no invalid program is admitted.  Excluded from the BUILDFILE closure families exactly: calls through a dotted path; there the
+# function is bound to a name first (`let g = t.f; let a = g(2);`), which builds.  The eval families keep calling through fields.
+KNOWN_FIELD_CALL = 'ucg build refuses t.f(args)'
 
 POOL = ['a', 'b', 'c', 'd', 'p', 'q', 'r', 'x', 'y', 'item', 'u', 'acc']
 
@@ -813,8 +819,9 @@ class CGen:
     map / list literals, tuples holding closures, higher-order functions, modules defining closures over `mod` and their instantiations;
     int arguments come from a tiny pool so that different closures are called with EQUAL arguments again and again"""
 
-    def __init__(self, rnd, ty=None, env=None, kinds=None, maxdepth=3):
+    def __init__(self, rnd, ty=None, env=None, kinds=None, maxdepth=3, field_calls=True):
         self.rnd = rnd
+        self.field_calls = field_calls              # False: a function held by a tuple / module instance is bound to a name before it is called (KNOWN_FIELD_CALL)
         self.ty = dict(ty or {})
         self.env = dict(env or {})
         self.kinds = kinds
@@ -827,7 +834,7 @@ class CGen:
         out = []
 
         def walk(e, t, idx):
-            out.append((e, t, idx))
+            out.append((e, t, idx or (e[0] != 'ref' and not self.field_calls)))       # third component: cannot stand in callee position
             if t[0] == 'T':
                 for fn, ft in t[1]:
                     walk(('fld', e, fn), ft, idx)
@@ -952,7 +959,7 @@ class CGen:
         ps = self.paths(sc)
         makers = [(e, et) for e, et, idx in ps if et[0] == 'F' and et[2][0] == 'F' and not idx]
         intcallables = [(e, et) for e, et, idx in ps if et[0] == 'F' and et[2] == TI and not idx and all(pt == TI for pt in et[1])]
-        picks = [(e, et) for e, et, idx in ps if idx and et[0] == 'F']
+        picks = [(e, et) for e, et, idx in ps if idx and et[0] == 'F']            # a function inside a list (tuple) gets a name of its own
         mods = [n for n, t in sc.items() if t[0] == 'M']
         kinds = ['int'] * 3 + ['func'] * 2 + ['factory'] * (3 if makers else 8) + ['instance'] * 8 * bool(makers) + ['calls'] * 8 * bool(len(intcallables) > 1)
         kinds += ['maplist'] * 2 + ['list'] * 1 * bool(makers) + ['tuple'] * 2 * bool(makers) + ['pick'] * 4 * bool(picks) + ['module'] * 2 + ['inst'] * 6 * bool(mods)
@@ -1002,7 +1009,7 @@ class CGen:
             pnames = self.params(rnd.randint(1, 2))
             pvals = [rnd.randint(1, 9) for _ in pnames]
             sub = CGen(rnd, {'mod': ('T', tuple((n, TI) for n in pnames))}, {'mod': dict(zip(pnames, pvals))},
-                       kinds=['int', 'func', 'factory', 'instance', 'calls'], maxdepth=2)
+                       kinds=['int', 'func', 'factory', 'instance', 'calls'], maxdepth=2, field_calls=self.field_calls)
             for _ in range(rnd.randint(2, 4)):
                 sub.step()
             if not sub.lets:
@@ -1037,10 +1044,10 @@ class CGen:
         return False
 
 
-def closure_programs(rnd, n, length):
+def closure_programs(rnd, n, length, field_calls=True):
     out = []
     for _ in range(n):
-        g = CGen(rnd)
+        g = CGen(rnd, field_calls=field_calls)
         while len(g.stmts) < length and g.step():
             pass
         out.append(g)
@@ -1094,7 +1101,7 @@ def pinned(stmts, envs_after):
 
 def standin_closure_build(tier, seed):
     rnd = random.Random(seed + 1077)
-    progs = closure_programs(rnd, 300 if tier == 'thorough' else 60, 12)
+    progs = closure_programs(rnd, 300 if tier == 'thorough' else 60, 12, field_calls=False)       # KNOWN_FIELD_CALL
     cases = []
     for g in progs:
         envs, env = [], {}
